@@ -144,4 +144,18 @@ example : fdaeGrid ratO 0 1 (3/10) (1/4503599627370496) (1 + 1/1000000000) = .ok
 /-- non-vacuity: [0, 1] with step 3/10 → grid 0, 0.3, 0.6, 0.9, 1.2 (overshoot < one step) -/
 example : fixedGrid ratO 0 1 (3/10) = .ok [0, 3/10, 6/10, 9/10, 12/10] := by decide +kernel
 
+/-- **fdae_solver grid, as coded now** (grid point `t0 + k·h`, absolute end-test allowance): in exact arithmetic it is the grid of
+`C12_fdae_grid` with slack `1 + slackAbs`, so the same statement holds for it -/
+theorem C12_fdae_grid_as_coded (t0 tend h uround slackAbs : ℚ) (hh : 0 < h) (hs : 0 ≤ slackAbs) (hspan : t0 < tend) :
+    ∃ L : List ℚ, fdaeGridK ratO (fun _ => 0) t0 tend h uround slackAbs = .ok (t0 :: L) ∧
+      (∀ x ∈ L, t0 < x ∧ x ≤ tend) ∧ L.Pairwise (· < ·) ∧
+      (∀ j, j + 1 < L.length → L[j]? = some (t0 + ((j : ℚ) + 1) * h)) ∧
+      (∃ last, L.getLast? = some last ∧ (last = tend ∨ (0 ≤ tend - last ∧ tend - last < uround))) := by
+  have key := fdaeLoopK_eq t0 tend h uround slackAbs (max (ratO.ceil (ratO.div (ratO.sub tend t0) h) + 1000) 10000) 0
+  simp only [Nat.cast_zero, zero_mul, add_zero] at key
+  have hg : fdaeGridK ratO (fun _ => 0) t0 tend h uround slackAbs = fdaeGrid ratO t0 tend h uround (1 + slackAbs) := by
+    simp only [fdaeGridK, fdaeGrid, key]
+  rw [hg]
+  exact C12_fdae_grid t0 tend h uround (1 + slackAbs) hh (by linarith) hspan
+
 end Solverz
